@@ -5,7 +5,7 @@
    A sheet is a sequence of tokens  [k |-> kind, s |-> spelling, v |-> bare name, col |-> <<r, g, b>> or <<>>]  written
    with one blank between neighbours (so every run of selector tokens is a chain of descendant
    combinators).  Kinds:
-     ident class hash star comma lbrace rbrace semi colon at lround rround lsq rsq func str num cdo cdc
+     ident class hash star comma lbrace rbrace semi colon at lround rround lsq rsq func str num bang cdo cdc
 
    Two descriptions:
      Sheet(T)     the transcription of parse_stylesheet: many0(parse_statement) with
@@ -176,9 +176,12 @@ RefRules(T) == RefFrom(T, 1, <<>>).rules
 
 (* ------------------------- from parsed rule sets to the abstract sheet of Css.tla ------------------------- *)
 \* styles_from_properties: of the properties in the alphabet only `color: #rrggbb` means something
+\* parse_value: a value ending in `!` `important` is important, and loses the two tokens
+Important(val) == Len(val) >= 2 /\ val[Len(val) - 1].k = "bang" /\ val[Len(val)].k = "ident" /\ val[Len(val)].s = "important"
+Bare(val) == IF Important(val) THEN Sub(val, 1, Len(val) - 2) ELSE val
 ColourDecls(decls) ==
-  LET ds == SelectSeq(decls, LAMBDA d : d.prop = "color" /\ Len(d.val) = 1 /\ d.val[1].k = "hash" /\ d.val[1].col # <<>>) IN
-  [m \in 1..Len(ds) |-> [prop |-> "color", val |-> ds[m].val[1].col, imp |-> FALSE]]
+  LET ds == SelectSeq(decls, LAMBDA d : d.prop = "color" /\ Len(Bare(d.val)) = 1 /\ Bare(d.val)[1].k = "hash" /\ Bare(d.val)[1].col # <<>>) IN
+  [m \in 1..Len(ds) |-> [prop |-> "color", val |-> Bare(ds[m].val)[1].col, imp |-> Important(ds[m].val)]]
 Compound(t, first) ==
   [comb |-> IF first THEN "" ELSE "desc",
    name |-> IF t.k = "ident" THEN t.s ELSE "",
